@@ -26,7 +26,9 @@ THEOREMS = ['Fsic.C18.' + n for n in [
     'failed_op_preserves_state', 'failed_replace_is_prefix', 'read_op_preserves_state',
     'resolution_depends_only_on_aliases', 'plain_twin_agrees', 'plain_twin_history', 'plain_is_twin',
     'ctor_routes_resolve_keys', 'from_dataframe_alias_columns', 'chain_label_resolves', 'from_dataframe_chain_labels',
-    'export_import_round_trip', 'round_trip_same_values', 'resolve_reencode', 'constructor_reencode', 'ctor_reencode']]
+    'export_import_round_trip', 'round_trip_same_values', 'resolve_reencode', 'constructor_reencode', 'ctor_reencode',
+    'label_not_resolved', 'alias_named_label_not_resolved', 'label_access_absolute', 'label_slice_absolute',
+    'resolving_labels_reads_target', 'resolving_labels_differs', 'resolving_labels_differs_at_witness']]
 RULE = ('(F) guard: 4 fixed cyclic/self maps are constructed in subprocesses (3 s limit, in parallel) before anything '
         'else; a call that does not return is a violation and keeps cyclic/self maps out of the in-process parts of '
         'that run. (A) every alias dict with keys from 4 alias names and values from those names + 2 variables + 1 '
@@ -2072,6 +2074,7 @@ def check_hierarchies(ctx, rep, rng, count, budget=None):
 
 import alias_failops as fo  # noqa: E402
 import alias_routes as ar  # noqa: E402
+import alias_labels as al  # noqa: E402
 
 
 def check_failops(ctx, rep, rng, count):
@@ -2184,7 +2187,11 @@ def legacy_g_jk(ctx, rep):
     part_jk(ctx, rep)
 
 
-LEGACY = [legacy_ad, legacy_e, legacy_g_jk, legacy_h]
+def part_l(ctx, rep):
+    al.check_label_spans(ctx, rep, ctx.sub_rng('label-spans'), (1200 if ctx.tier == 'quick' else 25000) * ctx.scale)
+
+
+LEGACY = [legacy_ad, legacy_e, legacy_g_jk, legacy_h, part_l]
 
 
 def run(ctx, rep):
@@ -2196,7 +2203,9 @@ def run(ctx, rep):
     fo.usable_member_names()
     framework.parallel(_run_parts, ctx, rep, parts=min(ctx.workers, 16))
     crashes = [x for x in rep.notes if x.startswith('CRASH ')]
-    if crashes and not rep.violations:
+    open_keys = {k['key'] for k in framework.load_known() if k['property'] == ID and k.get('status') == 'open'}
+    if crashes and not any(v['key'] not in open_keys for v in rep.violations):
+        # (violations that only reproduce open known findings do not explain a crash)
         raise RuntimeError(crashes[0])
     rep.notes.append(f'(G) {sum(v for k, v in rep.dist.items() if k.startswith("opts-kind:"))} objects (models, '
                      f'linkers, containers) x {len(OPT_COMBOS)} flag combinations x 2 spellings')
@@ -2289,6 +2298,14 @@ def replay(ctx, rep, case):
             for x, impl, jc in tc:
                 print(f'  resolution through {jc["resolve_form"]}: model:', ctx.drive([line('alias_shorten', x)])[0].split('|')[-1],
                       '| impl:', impl)
+        except Exception as e:  # noqa: BLE001
+            print('  model: <driver unavailable>', e)
+    elif part == 'label-span':
+        tc = []
+        print('  regime:', al.run_label_case(ctx, rep, case, tc))
+        try:
+            for x, impl, _ in tc:
+                print('  model:', ctx.drive([line('alias_label_history', x)])[0], '\n  impl :', impl)
         except Exception as e:  # noqa: BLE001
             print('  model: <driver unavailable>', e)
     elif part == 'failops':
